@@ -54,7 +54,9 @@ def run_demo(wt, demo_path):
     try:
         # SEED_DEMO_ENV="GOARCH=386": the configuration the demo needs (recorded in meta.json as demo_env)
         envs = " ".join(os.environ.get("SEED_DEMO_ENV", "").split())
-        rc, out = sh("%s go test -vet=off -count=1 -run TestDemo ." % envs, cwd=os.path.join(wt, d), timeout=900)
+        # SEED_DEMO_ARGS: extra `go test` arguments the configuration needs (e.g. -exec=<wasm runner>)
+        extra = os.environ.get("SEED_DEMO_ARGS", "")
+        rc, out = sh("%s go test -vet=off -count=1 %s -run TestDemo ." % (envs, extra), cwd=os.path.join(wt, d), timeout=900)
     finally:
         os.remove(dst)
     return rc, out
@@ -104,6 +106,8 @@ def validate(cand, sid, prop):
                 "demo_dir": demo_target(os.path.join(cand, "demo_test.go")), "detection": {}}
         if os.environ.get("SEED_DEMO_ENV"):
             meta["demo_env"] = os.environ["SEED_DEMO_ENV"]
+        if os.environ.get("SEED_DEMO_ARGS"):
+            meta["demo_args"] = os.environ["SEED_DEMO_ARGS"]
         mp = os.path.join(d, "meta.json")
         if os.path.exists(mp):
             old = json.load(open(mp))
